@@ -264,7 +264,13 @@ func (g *gen) redigest(l *layer) {
 func (g *gen) malformedDigest(wire []byte) (string, string) {
 	h256 := hex.EncodeToString(hashOf("sha256", wire))
 	h512 := hex.EncodeToString(hashOf("sha512", wire))
-	switch g.rnd.Intn(14) {
+	switch g.rnd.Intn(17) {
+	case 14:
+		return "sha256:" + h256 + g.rnd.Pick(" ", "\n", "\t", "\r\n"), "digest-trailing-blank"
+	case 15:
+		return g.rnd.Pick(" ", "\t") + "sha256:" + h256, "digest-leading-blank"
+	case 16:
+		return "sha256:0x" + h256, "digest-0x"
 	case 0:
 		return "sha256:" + h256[:63], "digest-odd-hex"
 	case 1:
